@@ -7,7 +7,7 @@ TEXT = json.load(open(f"{V}/tools/manifest_text.json"))
 checks, na = [], []
 for p in props:
     pid = p["id"]
-    if os.path.exists(f"{V}/mc/props/src/bin/{pid.lower()}.rs") and pid in TEXT:
+    if (os.path.exists(f"{V}/mc/props/src/bin/{pid.lower()}.rs") or os.path.exists(f"{V}/mc/props0/src/bin/{pid.lower()}.rs")) and pid in TEXT:
         t = TEXT[pid]
         checks.append({
             "property_id": pid,
